@@ -78,7 +78,7 @@ func (m *MessageClientKeyExchange) Unmarshal(data []byte) error {
 			return dtlserrors.ErrBufferTooSmall
 		}
 		publicKeyLength := int(data[offset])
-		if publicKeyLength > len(data)-1-offset {
+		if publicKeyLength == 0 || publicKeyLength > len(data)-1-offset {
 			return dtlserrors.ErrBufferTooSmall
 		}
 
